@@ -54,7 +54,8 @@ def json_to_wire(v):
     if isinstance(v, str):
         return [S('s'), v]
     if isinstance(v, _Obj):
-        return [S('obj')] + [[k, json_to_wire(x)] for k, x in v]
+        # members by key: the order of keys in a JSON object carries no information ("mirrors the AST field for field")
+        return [S('obj')] + sorted([[k, json_to_wire(x)] for k, x in v], key=lambda kv: kv[0])
     if isinstance(v, list):
         return [S('arr')] + [json_to_wire(x) for x in v]
     raise TypeError(type(v))
@@ -64,6 +65,8 @@ def model_json_canon(x):
     """the model's wire -> same canonical form (floats by value)"""
     if isinstance(x, list) and x and x[0] == 'f' and len(x) == 3:
         return [S('f'), '%.11e' % (int(x[1]) / int(x[2]))]
+    if isinstance(x, list) and x and str(x[0]) == 'obj':
+        return [x[0]] + sorted([[kv[0], model_json_canon(kv[1])] for kv in x[1:]], key=lambda kv: str(kv[0]))
     if isinstance(x, list):
         return [model_json_canon(y) for y in x]
     return x
